@@ -1,4 +1,4 @@
--- PINNED by bin/pin_tables: copy of Gen/Dispatch.lean as generated from /repo at acd082a — regenerate, do not edit
+-- PINNED by bin/pin_tables: copy of Gen/Dispatch.lean as generated from /repo at 8e9ee7a — regenerate, do not edit
 namespace Ggql.Pinned
 def dispatchOrder : List String := ["resolver", "any", "reflect"]
 def opFallbackAnyName : Bool := false
@@ -9,6 +9,8 @@ def dupScalarDropped : Bool := false
 def dirArgWrapperAccepted : Bool := false
 def descRaw : Bool := false
 def assureOnce : Bool := false
+def dirLoopByVisited : Bool := false
+def typeLookupFindsDirectives : Bool := false
 def dirRequiredUnchecked : Bool := false
 def dirRefTypeFirst : Bool := false
 def extendSchemaNeedsSchema : Bool := false
@@ -36,7 +38,7 @@ def argSkeleton : List (String × String) := [
   ("Root.formArgs", "4ce1628b3fc4"),
   ("Root.formReflectArgs", "3966a01466f3"),
   ("Root.replaceArgVars", "8e6170986780"),
-  ("Root.resolveField", "6c3ed99b6022"),
+  ("Root.resolveField", "071312e2043a"),
   ("checkReflectArgs", "a983f6c0bc0d")
 ]
 end Ggql.Pinned
